@@ -21,11 +21,33 @@ EXPECT_WRITE = {
 LITERAL_SAFE = {"axis", "group_size", "size", "stride", "bits", "reorder"}
 
 
+def _meth(repo: Repo, ci: ClassInfo, name: str):
+    """The method `name` of `ci`, its own or inherited from a base class of the package (private mixins included)."""
+    for c in repo.mro(ci):
+        f = c.own(name)
+        if f is not None:
+            # inherited from a public class of the package: that class is analysed in its own right
+            return f if (c is ci or c.name.startswith("_")) else None
+    return None
+
+
 def flatten_classes(repo: Repo) -> List[ClassInfo]:
+    """Tensor classes with a flattened form: the public classes that own or inherit (from a private mixin / intermediate base of the
+    package) a __tensor_flatten__.  A private mixin that only hosts the methods is not a tensor class of its own."""
     out = []
+    hosts = set()
     for lst in repo.classes.values():
         for ci in lst:
             if ci.own("__tensor_flatten__") is not None:
+                hosts.add(ci.name)
+    for lst in repo.classes.values():
+        for ci in lst:
+            if _meth(repo, ci, "__tensor_flatten__") is None:
+                continue
+            private_host = ci.name.startswith("_") and ci.own("__new__") is None and any(ci.node in [b.node for b in repo.mro(c)][1:] for l2 in repo.classes.values() for c in l2)
+            if private_host:
+                continue
+            if ci.own("__tensor_flatten__") is not None or any(b.name in hosts and b.name.startswith("_") for b in repo.mro(ci)[1:]):
                 out.append(ci)
     return sorted(out, key=lambda c: c.name)
 
@@ -33,8 +55,8 @@ def flatten_classes(repo: Repo) -> List[ClassInfo]:
 def analyse_class(repo: Repo, ci: ClassInfo):
     """returns list of (rule_suffix, ok|bad|unknown, line, tag, detail, witness)"""
     res = []
-    fl = ci.own("__tensor_flatten__")
-    un = ci.own("__tensor_unflatten__")
+    fl = _meth(repo, ci, "__tensor_flatten__")
+    un = _meth(repo, ci, "__tensor_unflatten__")
     if un is None:
         return [("R5", "bad", fl.lineno, "no unflatten", f"{ci.name} defines __tensor_flatten__ but no __tensor_unflatten__", "any deserialization / torch.compile")]
     ps = paths_of(fl)
@@ -159,7 +181,14 @@ def _const_seq(fn, it):
         v = module_lookup(fn, it.id)
         return _const_seq(fn, v) if isinstance(v, (ast.List, ast.Tuple)) else None
     if isinstance(it, (ast.List, ast.Tuple)):
-        return [x.value for x in it.elts] if all(isinstance(x, ast.Constant) for x in it.elts) else None
+        vals = []
+        for x in it.elts:
+            if isinstance(x, ast.Name):
+                x = module_lookup(fn, x.id)
+            if not isinstance(x, ast.Constant):
+                return None
+            vals.append(x.value)
+        return vals
     if isinstance(it, ast.Subscript) and isinstance(it.slice, ast.Slice):
         base = _const_seq(fn, it.value)
         if base is None:
@@ -181,8 +210,8 @@ def _const_seq(fn, it):
 def analyse_loader(repo: Repo, ci: ClassInfo):
     """load_from_state_dict pops exactly the inner tensor names __tensor_flatten__ lists (recursing for sub-class payloads)."""
     res = []
-    lf = ci.own("load_from_state_dict")
-    fl = ci.own("__tensor_flatten__")
+    lf = _meth(repo, ci, "load_from_state_dict")
+    fl = _meth(repo, ci, "__tensor_flatten__")
     if lf is None or fl is None:
         return res
     ps = paths_of(fl)
@@ -232,7 +261,7 @@ def analyse_loader(repo: Repo, ci: ClassInfo):
         res.append(("R1", "ok" if ok else "bad", lf.lineno, f"{ci.name} loader prefix {k}", f"{ci.name} recurses into {cls} with prefix + {k!r} (the writer joins nested names with '.')", "every frozen low-bit state_dict (KeyError)"))
     # the reader: cls.__tensor_unflatten__, or the module-level helper it delegates to with its own (inner_tensors, meta)
     readers = {f"{ci.name}.__tensor_unflatten__", "cls.__tensor_unflatten__"}
-    un = ci.own("__tensor_unflatten__")
+    un = _meth(repo, ci, "__tensor_unflatten__")
     if un is not None:
         up = positional_params(un)
         rets = [n for n in ast.walk(un) if isinstance(n, ast.Return)]
